@@ -126,6 +126,9 @@ class Fn:
         self.asserts = []
         self.elems = {}
         self.arr_len = {}
+        self.ptrs = {}
+        self.ret_hook = None
+        self.repo = None
 
     # ---------------------------------------------------------------- expressions
     def lval_name(self, n):
@@ -148,6 +151,11 @@ class Fn:
         if k == "ParenExpr":
             return self.E(n["inner"][0])
         if k in ("DeclRefExpr", "MemberExpr"):
+            if k == "DeclRefExpr" and n.get("referencedDecl", {}).get("kind") == "EnumConstantDecl":
+                nm = n["referencedDecl"]["name"]
+                if nm not in ENUMS:
+                    raise Unsupported("enumerator " + nm)
+                return lit(ENUMS[nm])
             name = self.lval_name(n)
             if name in self.consts:
                 return lit(self.consts[name])
@@ -187,10 +195,8 @@ class Fn:
                 c = self.C(a)
                 return {"true": "0", "false": "1"}.get(c, "(if %s then 0 else 1)" % c)
             if op == "*":
-                p = self.lval_name(a)
-                if p in self.char_ptrs:
-                    return "(chr %s)" % p
-                raise Unsupported("deref of " + p)
+                base, off = self.pointee(a)
+                return self.elem_read(base, off)
             raise Unsupported("unary " + op)
         if k == "BinaryOperator":
             op = n["opcode"]
@@ -260,6 +266,10 @@ class Fn:
             name = self.lval_name(arr)
             ie = self.E(idx)
             iv = cval(ie)
+            if name in self.ptrs:
+                if iv is None:
+                    raise Unsupported("pointer %s indexed by data" % name)
+                return self.elem_read(self.ptrs[name][0], self.ptrs[name][1] + iv)
             pos = "%d%%nat" % iv if iv is not None and iv >= 0 else "(Z.to_nat %s)" % ie
             if name in self.char_ptrs:
                 return "(chr (skipn %s %s))" % (pos, name)
@@ -277,6 +287,25 @@ class Fn:
             return "(@nth Z %s %s 0)" % (pos, name)
         if k == "CallExpr":
             f = self.lval_name(n["inner"][0])
+            if f == "memcmp":
+                # only its being zero or not is modelled: 0 when the bytes agree, 1 otherwise
+                cnt = cval(self.E(n["inner"][3]))
+                if cnt is None:
+                    raise Unsupported("memcmp of a data-dependent size")
+                ab, ao = self.pointee(n["inner"][1])
+                bb, bo = self.pointee(n["inner"][2])
+                eqs = []
+                for i in range(cnt):
+                    x, y = self.elem_read(ab, ao + i), self.elem_read(bb, bo + i)
+                    vx, vy = cval(x), cval(y)
+                    if vx is not None and vy is not None:
+                        if vx != vy:
+                            return "1"
+                        continue
+                    eqs.append("(%s =? %s)" % (x, y))
+                if not eqs:
+                    return "0"
+                return "(if %s then 0 else 1)" % " && ".join(eqs)
             if f not in self.known:
                 raise Unsupported("call of " + f)
             args = [self.E(a) for a in n["inner"][1:]]
@@ -371,11 +400,21 @@ class Fn:
         k = n["kind"]
         if k == "ParenExpr":
             return self.target(n["inner"][0])
+        if k == "UnaryOperator" and n["opcode"] == "*":
+            base, off = self.pointee(n["inner"][0])
+            self.elems.setdefault(base, set()).add(off)
+            return "%s_%d" % (base, off), None
         if k == "ArraySubscriptExpr":
             arr, idx = n["inner"]
             name = self.lval_name(arr)
             ie = self.E(idx)
             iv = cval(ie)
+            if name in self.ptrs:
+                if iv is None:
+                    raise Unsupported("pointer %s indexed by data" % name)
+                base, off = self.ptrs[name][0], self.ptrs[name][1] + iv
+                self.elems.setdefault(base, set()).add(off)
+                return "%s_%d" % (base, off), None
             self.note_len(name, arr)
             if iv is not None and iv >= 0 and name not in self.char_ptrs:
                 self.elems.setdefault(name, set()).add(iv)
@@ -384,6 +423,44 @@ class Fn:
                 raise Unsupported("array %s is indexed by data after constant-index writes" % name)
             return name, ie
         return self.lval_name(n), None
+
+    def pointee(self, a):
+        """(base array, constant offset) designated by a pointer-valued expression; `p++` advances p"""
+        k = a["kind"]
+        if k in ("ParenExpr", "ImplicitCastExpr", "CStyleCastExpr"):
+            return self.pointee(a["inner"][0])
+        if k == "UnaryOperator" and a["opcode"] in ("++", "--"):
+            name = self.lval_name(a["inner"][0])
+            if name not in self.ptrs:
+                raise Unsupported("++ on non-pointer in address")
+            base, off = self.ptrs[name]
+            d = 1 if a["opcode"] == "++" else -1
+            self.ptrs[name] = (base, off + d)
+            return (base, off) if a.get("isPostfix") else (base, off + d)
+        if k == "BinaryOperator" and a["opcode"] in ("+", "-"):
+            base, off = self.pointee(a["inner"][0])
+            v = cval(self.E(a["inner"][1]))
+            if v is None:
+                raise Unsupported("pointer arithmetic with data")
+            return base, off + (v if a["opcode"] == "+" else -v)
+        if k == "StringLiteral":
+            return ("@str:" + a["value"], 0)
+        name = self.lval_name(a)
+        if name in self.ptrs:
+            return self.ptrs[name]
+        return (name, 0)          # an array object (parameter, member) decayed to a pointer
+
+    def elem_read(self, base, off):
+        if base.startswith("@str:"):
+            lit_s = json.loads(base[5:]) if base[5:].startswith('"') else base[5:]
+            bs = lit_s.encode("latin-1") + b"\0"
+            return lit(bs[off])
+        el = "%s_%d" % (base, off)
+        if el in self.consts:
+            return lit(self.consts[el])
+        if off in self.elems.get(base, ()):
+            return el
+        return "(@nth Z %d%%nat %s 0)" % (off, base)
 
     def note_len(self, name, arr):
         """remember the declared length of an array object from the type of the expression naming it"""
@@ -470,9 +547,16 @@ class Fn:
                 if v["kind"] != "VarDecl":
                     raise Unsupported("decl " + v["kind"])
                 ty = ctype(v)
+                init = [c for c in v.get("inner", []) if c.get("kind") not in ("FullComment",)]
+                if ty.endswith("*") and not ty.endswith("char *"):
+                    self.ptrs[v["name"]] = self.pointee(init[0])
+                    continue
                 if ty.endswith("char *"):
                     self.char_ptrs.add(v["name"])
-                init = [c for c in v.get("inner", []) if c.get("kind") not in ("FullComment",)]
+                call = self.as_inline_call(init[0]) if init else None
+                if call is not None:
+                    name = v["name"]
+                    return out + self.inline(call, lambda val: self.assign((name, None), wrap(val, ty)) + self.S(rest, k))
                 rhs = self.E(init[0]) if init else "0"
                 out += self.assign((v["name"], None), wrap(rhs, ty))
             return out + self.S(rest, k)
@@ -481,9 +565,17 @@ class Fn:
             return self.ret(e)
         if kind in ("BinaryOperator", "CompoundAssignOperator") and n["opcode"].endswith("=") and \
                 n["opcode"] not in ("==", "!=", "<=", ">="):
+            lhs0 = n["inner"][0]
+            if lhs0.get("kind") == "DeclRefExpr" and self.lval_name(lhs0) in self.ptrs:
+                pn = self.lval_name(lhs0)
+                v = cval(self.E(n["inner"][1]))
+                if v is None or n["opcode"] not in ("+=", "-="):
+                    raise Unsupported("pointer assignment")
+                self.ptrs[pn] = (self.ptrs[pn][0], self.ptrs[pn][1] + (v if n["opcode"] == "+=" else -v))
+                return self.S(rest, k)
+            rhs = self.E(n["inner"][1])        # right operand first: `*p++ = *q++` is not in the subset
             tgt = self.target(n["inner"][0])
             ty = ctype(n["inner"][0])
-            rhs = self.E(n["inner"][1])
             if n["opcode"] != "=":
                 op = n["opcode"][:-1]
                 cur = self.read(tgt)
@@ -507,6 +599,10 @@ class Fn:
                 raise Unsupported("assignment to char pointer")
             return self.assign(tgt, wrap(rhs, ty)) + self.S(rest, k)
         if kind == "UnaryOperator" and n["opcode"] in ("++", "--"):
+            if n["inner"][0].get("kind") == "DeclRefExpr" and self.lval_name(n["inner"][0]) in self.ptrs:
+                pn = self.lval_name(n["inner"][0])
+                self.ptrs[pn] = (self.ptrs[pn][0], self.ptrs[pn][1] + (1 if n["opcode"] == "++" else -1))
+                return self.S(rest, k)
             tgt = self.target(n["inner"][0])
             ty = ctype(n["inner"][0])
             if tgt[0] in self.char_ptrs:
@@ -597,6 +693,21 @@ class Fn:
                         self.consts["%s_%d" % (name, i)] = 0
                     return self.S(rest, k)
                 return "let %s : list Z := map (fun _ : Z => 0) %s in\n" % (name, name) + self.S(rest, k)
+            if f == "memcpy":
+                cnt = cval(self.E(n["inner"][3]))
+                if cnt is None:
+                    raise Unsupported("memcpy of a data-dependent size")
+                db, do = self.pointee(n["inner"][1])
+                sb, so = self.pointee(n["inner"][2])
+                out = ""
+                vals = [self.elem_read(sb, so + i) for i in range(cnt)]
+                for i in range(cnt):
+                    self.elems.setdefault(db, set()).add(do + i)
+                    out += self.assign(("%s_%d" % (db, do + i), None), vals[i])
+                return out + self.S(rest, k)
+            call = self.as_inline_call(n)
+            if call is not None:
+                return self.inline(call, lambda val: self.S(rest, k))
             raise Unsupported("call statement " + f)
         if kind == "ParenExpr" and n["inner"][0].get("kind") == "ConditionalOperator":
             n = n["inner"][0]
@@ -612,6 +723,47 @@ class Fn:
             return self.S(rest, k)   # ((void)0) left by assert under NDEBUG
         raise Unsupported("statement " + kind)
 
+    def as_inline_call(self, n):
+        while n.get("kind") in ("ImplicitCastExpr", "ParenExpr"):
+            n = n["inner"][0]
+        if n.get("kind") == "CallExpr":
+            try:
+                f = self.lval_name(n["inner"][0])
+            except Unsupported:
+                return None
+            if f in INLINE:
+                return n
+        return None
+
+    def inline(self, call, kret):
+        """the body of a small static function, in place: pointer parameters are bound to what they point to"""
+        f = self.lval_name(call["inner"][0])
+        node = ast_of(self.repo, INLINE[f], f)
+        params = [p for p in node["inner"] if p.get("kind") == "ParmVarDecl"]
+        args = call["inner"][1:]
+        out = ""
+        saved_ptrs = dict(self.ptrs)
+        for p, a in zip(params, args):
+            ty = ctype(p)
+            if ty.endswith("*"):
+                self.ptrs[p["name"]] = self.pointee(a)
+            else:
+                out += self.assign((p["name"], None), wrap(self.E(a), ty))
+        body = [c for c in node["inner"] if c.get("kind") == "CompoundStmt"][0]
+        saved_ret, saved_outs = self.ret_hook, self.outs
+
+        def done(val):
+            self.ret_hook = saved_ret
+            for p in params:
+                if ctype(p).endswith("*"):
+                    self.ptrs.pop(p["name"], None)
+            for nm, v in saved_ptrs.items():
+                self.ptrs.setdefault(nm, v)
+            return kret(val)
+        self.ret_hook = done
+        text = self.S([body], lambda: done(None))
+        return out + text
+
     def const_of(self, n):
         try:
             return cval(self.E(n))
@@ -624,6 +776,8 @@ class Fn:
         return any(isinstance(c, dict) and self.has_return(c) for c in n.get("inner", []))
 
     def ret(self, e):
+        if self.ret_hook is not None:
+            return self.ret_hook(e)
         outs = [lit(self.consts[o]) if o in self.consts else self.array_value(o) for o in self.outs]
         if e is not None:
             outs = outs + [e]
@@ -642,11 +796,15 @@ class Fn:
         self.uses_option = False
         self.consts = {}
         self.elems = {}
+        self.ptrs = {}
+        self.arr_len = dict(getattr(self, "arr_len0", {}))
         self.S([body], lambda: self.ret(None))
         self.uses_option_final = self.uses_option
         self.consts = {}
         self.asserts = []
         self.elems = {}
+        self.ptrs = {}
+        self.arr_len = dict(getattr(self, "arr_len0", {}))
         text = self.S([body], lambda: self.ret(None))
         if self.uses_option_final:
             rty = "option (%s)" % rty
@@ -655,6 +813,48 @@ class Fn:
 
 UNROLL = 512
 FUEL = 64
+INLINE = {"store16": "storage.c", "load16": "storage.c"}
+# lengths of array objects passed as decayed pointers (from the typedefs of the public header)
+ARRAY_LEN = {"polyseed_data_store": {"storage": 32}, "polyseed_data_load": {"storage": 32}}
+ENUMS = {}
+
+
+def load_enums(repo):
+    """values of the enumerators of the public header (explicit value, or previous + 1)"""
+    for en in ("polyseed_status", "polyseed_coin"):
+        cmd = ["clang", "-std=c11", "-fsyntax-only", "-I", repo + "/include", "-Xclang", "-ast-dump=json",
+               "-Xclang", "-ast-dump-filter=" + en, repo + "/include/polyseed.h"]
+        txt = subprocess.run(cmd, stdout=subprocess.PIPE, stderr=subprocess.DEVNULL, universal_newlines=True).stdout
+        dec = json.JSONDecoder()
+        i = 0
+        while i < len(txt):
+            while i < len(txt) and txt[i] in " \n\r\t":
+                i += 1
+            if i >= len(txt):
+                break
+            d, i = dec.raw_decode(txt, i)
+            if d.get("kind") != "EnumDecl":
+                continue
+            nxt = 0
+            for c in d.get("inner", []):
+                if c.get("kind") != "EnumConstantDecl":
+                    continue
+                v = None
+                stack = list(c.get("inner", []))
+                while stack:
+                    x = stack.pop()
+                    if x.get("kind") == "ConstantExpr" and "value" in x:
+                        v = int(x["value"])
+                        break
+                    if x.get("kind") == "IntegerLiteral":
+                        v = int(x["value"])
+                        break
+                    stack += x.get("inner", [])
+                if v is None:
+                    v = nxt
+                ENUMS[c["name"]] = v
+                nxt = v + 1
+
 
 # (source file, C function, Gallina parameters, extra results, globals passed first to callers)
 TARGETS = [
@@ -669,6 +869,12 @@ TARGETS = [
     ("features.c", "polyseed_enable_features", [("reserved_features", "Z"), ("mask", "Z")], ["reserved_features"], [], "Z * Z"),
     ("gf.c", "polyseed_data_to_poly",
      [("data_birthday", "Z"), ("data_features", "Z"), ("data_secret", "list Z"), ("poly_coeff", "list Z")], ["poly_coeff"], [], "list Z"),
+    ("storage.c", "polyseed_data_store",
+     [("data_birthday", "Z"), ("data_features", "Z"), ("data_secret", "list Z"), ("data_checksum", "Z"), ("storage", "list Z")],
+     ["storage"], [], "list Z"),
+    ("storage.c", "polyseed_data_load",
+     [("storage", "list Z"), ("data_birthday", "Z"), ("data_features", "Z"), ("data_secret", "list Z"), ("data_checksum", "Z")],
+     ["data_birthday", "data_features", "data_secret", "data_checksum"], [], "Z * Z * list Z * Z * Z"),
     ("gf.c", "polyseed_poly_to_data",
      [("poly_coeff", "list Z"), ("data_secret", "list Z")],
      ["data_birthday", "data_features", "data_secret", "data_checksum"], [], "Z * Z * list Z * Z"),
@@ -708,6 +914,7 @@ def table(repo, src, name):
 
 def main():
     repo, out = sys.argv[1], sys.argv[2]
+    load_enums(repo)
     parts = [PRELUDE]
     status = {}
     try:
@@ -719,6 +926,8 @@ def main():
         try:
             node = ast_of(repo, src, fn)
             f = Fn(fn, node, gl, known)
+            f.repo = repo
+            f.arr_len0 = dict(ARRAY_LEN.get(fn, {}))
             text = f.translate(params, outs, rty)
             if fn == "polyseed_poly_to_data":
                 # memset(data->secret, 0, 32) and the four stores to fields of *data at the top
